@@ -1,4 +1,5 @@
 ---- MODULE PollWatchProps ----
+EXTENDS Naturals, Sequences
 (***************************************************************************)
 (* C42 - the two clauses, as operators over values that exist both in the  *)
 (* model's state (PollWatch.tla) and in the observations recorded from the *)
@@ -23,4 +24,19 @@ C42_NoStale(returned, pre, since) == (returned = pre) => (returned \in since)
 (* a polling interval has fully elapsed; signalled = a change notification  *)
 (* is pending or has been delivered since.                                  *)
 C42_Noticed(stale, seen, signalled) == (stale /\ seen) => signalled
+
+(***************************************************************************)
+(* C08, the part only an endpoint with a running poll watcher can show: a   *)
+(* file (or a child of a directory) is edited after the controller's Scan,  *)
+(* the endpoint's own polling scans run - and absorb the edit into the      *)
+(* endpoint's snapshot and cache - before the controller's Transition over  *)
+(* that path arrives.  The edit must survive and be reported.               *)
+(* edited = the walker's fingerprint of the edited path right after the     *)
+(* edit; after = the same after Transition returned; path = the edited path *)
+(* (sequence of names); problems = the paths of the problems returned.      *)
+(***************************************************************************)
+IsPathPrefix(p, q) == Len(p) <= Len(q) /\ SubSeq(q, 1, Len(p)) = p
+C08_EditAfterScanSurvivesPoll(edited, after, path, problems) ==
+  /\ after = edited
+  /\ \E i \in DOMAIN problems : IsPathPrefix(problems[i], path) \/ IsPathPrefix(path, problems[i])
 ====
